@@ -113,11 +113,12 @@ Section Code.
     end.
 
   (* np.isclose(self.v - point, 0, atol).all(axis=1).nonzero()[0][0] *)
-  Definition c_index_of (p : polyline F) (pt : vec3 F) : result nat :=
-    match flatnonzero (map (fun x => vclose8 O x pt) (pv p)) with
+  Definition c_index_of_at (atol : F) (p : polyline F) (pt : vec3 F) : result nat :=
+    match flatnonzero (map (fun x => vclose O atol x pt) (pv p)) with
     | i :: _ => Ok i
     | [] => Raise ValueError
     end.
+  Definition c_index_of (p : polyline F) (pt : vec3 F) : result nat := c_index_of_at (atol8 O) p pt.
 
   (* aligned_with: vg.project / vg.scale_factor, with the NaN outcomes (zero vector, zero projection) explicit *)
   Definition c_aligned (p : polyline F) (v : vec3 F) : result (polyline F) :=
@@ -170,3 +171,17 @@ Section Code.
     MkImpl F edges_for c_new c_flipped c_rolled c_sliced c_sectioned c_join c_insert c_index_of c_aligned
            c_apex c_bbox c_len.
 End Code.
+
+(* ---- flattening of results, used by the traced-kernel tie lemmas (outputs of a trace are flat lists) -------- *)
+Definition flatv {F} (l : list (vec3 F)) : list F := flat_map vlist l.
+Definition out_poly {F} (r : result (polyline F)) : list F :=
+  match r with Ok q => flatv (pv q) | Raise _ => [] end.
+Definition out_polys {F} (r : result (list (polyline F))) : list F :=
+  match r with Ok qs => flat_map (fun q => flatv (pv q)) qs | Raise _ => [] end.
+Definition out_rolled {F} (r : result (polyline F * list nat)) : list F * list nat :=
+  match r with Ok (q, m) => (flatv (pv q), m) | Raise _ => ([], []) end.
+Definition out_insert {F} (r : result (polyline F * list nat * list nat)) : list F * (list nat * list nat) :=
+  match r with Ok (q, om, im) => (flatv (pv q), (om, im)) | Raise _ => ([], ([], [])) end.
+Definition out_box {F} (b : option (vec3 F * vec3 F)) : list F :=
+  match b with Some (o, s) => vlist o ++ vlist s | None => [] end.
+Definition out_point {F} (r : result (vec3 F)) : list F := match r with Ok x => vlist x | Raise _ => [] end.
